@@ -76,6 +76,15 @@ def clauses (prop : String) (cfg : NetCfg) : St → List Ev → List ImplOut →
                                      previous := us.lastStatus, cycle := s.tick }).map fun k =>
               showStatus cfg { unit := i, kind := k })
           [("status_truthful_and_fresh", expected == o.statuses)]
+        else if prop == "C01" then
+          -- every cycle re-asserts the LATEST accepted motion command to every hydraulic unit (lock if there was none)
+          let setupLen := if s.isSetup then 0 else ((units cfg).flatMap setupFrames).length
+          let isHcuMotion (f : Frame) : Bool :=
+            (pgn f.id == 45824 || pgn f.id == 40960 || pgn f.id == 41216) &&
+            ((units cfg).any fun u => u.kind == .hcu && destination? f.id == some u.da)
+          let expect := ((units cfg).zip s.units).flatMap fun (u, us) =>
+            if u.kind == .hcu then Hcu.encodeMotion u.da u.sa (us.hcu.getD .stopAll) else []
+          [("cycle_reasserts_latest_command", (o.frames.drop setupLen).filter isHcuMotion == expect)]
         else if prop == "C20" then
           [("setup_requests_on_first_cycle",
             s.isSetup || ((units cfg).flatMap setupFrames).isPrefixOf o.frames)]
@@ -87,12 +96,28 @@ def clauses (prop : String) (cfg : NetCfg) : St → List Ev → List ImplOut →
           let fn : Frame := { id := f.id, data := J1939.normalise f.data }
           [("request_responder", match respond cfg fn with | some fr => o.frames == fr | none => o.frames.isEmpty)]
         else []
+      | .motion m =>
+        if prop == "C01" then
+          -- the accepted command reaches every hydraulic unit, heard or not
+          [("command_reaches_every_hcu",
+            o.frames == ((units cfg).filter (·.kind == .hcu)).flatMap fun u => Hcu.encodeMotion u.da u.sa m)]
+        else []
       | .teardown =>
         if prop == "C16" then
           [("teardown_resets_every_hcu", o.frames == ((units cfg).filter (·.kind == .hcu)).map fun u => Hcu.resetFrame u.da u.sa)]
         else []
       | _ => [])
-    here ++ clauses prop cfg r.1 es os
+    -- C06: a short frame and the same frame written out with its 0xFF padding are handled identically
+    let pairClause : List (String × Bool) :=
+      if prop == "C06" then
+        match e, es, os with
+        | .frame f, .frame g :: _, o2 :: _ =>
+          if f.data.length < 8 && g.id == f.id && g.data == J1939.normalise f.data then
+            [("short_frame_as_padded", o.panicked == o2.panicked && o.frames == o2.frames && o.signals == o2.signals)]
+          else []
+        | _, _, _ => []
+      else []
+    here ++ pairClause ++ clauses prop cfg r.1 es os
 
 def check (prop : String) (inp out : List String) : Verdict :=
   match inp with
